@@ -2,6 +2,9 @@ import Mimium.Proofs.FfiConv
 import Mimium.Proofs.FfiType
 import Mimium.Proofs.FfiValueSerde
 import Mimium.Proofs.FfiTrunc
+import Mimium.Proofs.FfiSound
+import Mimium.Proofs.FfiTypeSound
+import Mimium.Proofs.FfiValueSerdeSound
 /-!
 # C20 — Values and types survive the plugin FFI encoding
 
@@ -16,6 +19,16 @@ only hypotheses are facts about values that exist in a Rust process:
 * `KeysValid` — every `ExprNodeId`/`TypeNodeId` is a key slotmap hands out (odd version, null key = (MAX,1));
   without it the exact result is still proved (`…_norm`: the key comes back normalised, as `KeyData::deserialize` does);
 * `intern (resolve s) = s` — the interner returns the symbol it resolved.
+
+Soundness direction (second half of the file, `C20_*decode_sound`, `…_decode_wellformed`, `…_decode_reencode`,
+`…_prefix_deterministic`, `…_truncation`, `…_extension`): for ALL byte strings, whatever one of the four decoders
+(`FfiValue`, macro arguments, `Type`, direct `Value`) accepts is the encoder's output for a representable value `w`
+followed by the unread rest, and the value returned is `w` with its slotmap keys normalised.  The decoders accept NO
+other non-canonical input: lengths and integers are fixed width (no non-minimal form exists), `bool`/`Option` tags other
+than 0/1 are rejected, invalid UTF-8 is rejected (never replaced), numbers are raw bit patterns (NaN payloads are kept),
+a variant index is accepted only if the encoder writes it for that variant.  The one normalisation is
+`KeyData::deserialize` (`Key.norm`), so `bs = encode v ++ rest` holds exactly when the keys on the wire were valid, and
+in general `bs = encode w ++ rest ∧ v = w.norm`.
 -/
 namespace Mimium.Ffi
 open Mimium.Gen.Ffi
@@ -209,5 +222,250 @@ example : decodeBytes (encode (.array [.string "aé", .unit])) = some (.array [.
 example : ∃ bs, encodeTy (.userSum 3 [(1, none), (2, some ⟨5, 7⟩)]) = some bs := ⟨_, rfl⟩
 example : (Ty.record [⟨1, ⟨0, 1⟩, true⟩]).KeysValid := by unfold Ty.KeysValid; decide
 example : ∃ bs, encodeVal (.taggedUnion 1 (.record [(4, .fixpoint 2 ⟨0, 1⟩)])) = some bs := ⟨_, rfl⟩
+
+/-! # Soundness direction: what the decoders accept, on ALL byte strings -/
+
+/-! ## `FfiValue` -/
+
+/-- SOUNDNESS, exact normal-form relation.  Whatever the decoder accepts (any fuel, any bytes) is the encoding of a
+representable value `w` followed by exactly the unread rest, and the value returned is `w.norm` (`w` with every
+`Code` key normalised as `KeyData::deserialize` does). -/
+theorem C20_decode_sound (f : Nat) (bs rest : Bytes) (v : FfiValue) (h : decode f bs = some (v, rest)) :
+    ∃ w : FfiValue, w.Rep ∧ bs = encode w ++ rest ∧ v = w.norm := decode_sound h
+
+/-- complete characterisation of the decoder: soundness + round trip -/
+theorem C20_decode_iff (bs rest : Bytes) (v : FfiValue) :
+    decodeBytes bs = some (v, rest) ↔ ∃ w : FfiValue, w.Rep ∧ bs = encode w ++ rest ∧ v = w.norm :=
+  decodeBytes_iff bs rest v
+
+/-- a decoded value is well formed: representable, every key is one slotmap hands out, fixed by `norm` -/
+theorem C20_decode_wellformed (f : Nat) (bs rest : Bytes) (v : FfiValue) (h : decode f bs = some (v, rest)) :
+    v.Rep ∧ v.KeysValid ∧ v.norm = v := by
+  obtain ⟨w, hw, -, rfl⟩ := decode_sound h
+  exact ⟨FfiValue.rep_norm w hw, FfiValue.keysValid_norm w, FfiValue.norm_norm w⟩
+
+/-- the canonical re-encoding of what was decoded: the input is `pre ++ rest` where `pre` has the length of
+`encode v`; `encode v` decodes to `v` exactly (idempotence of decode∘encode on the image), with anything appended;
+and so does the consumed prefix `pre` itself. -/
+theorem C20_decode_reencode (f : Nat) (bs rest : Bytes) (v : FfiValue) (h : decode f bs = some (v, rest)) :
+    ∃ pre, bs = pre ++ rest ∧ pre.length = (encode v).length ∧
+      decodeBytes (encode v) = some (v, []) ∧
+      (∀ x, decodeBytes (encode v ++ x) = some (v, x)) ∧ (∀ x, decodeBytes (pre ++ x) = some (v, x)) := by
+  obtain ⟨hr, hk, -⟩ := C20_decode_wellformed f bs rest v h
+  obtain ⟨w, hw, rfl, rfl⟩ := decode_sound h
+  exact ⟨encode w, rfl, (encode_norm_length w).symm, C20_ffi_roundtrip _ hr hk,
+    fun x => C20_ffi_prefix_free _ x hr hk, fun x => decodeBytes_encode w x hw⟩
+
+/-- when the keys on the wire are valid the input *is* the canonical encoding of the result -/
+theorem C20_decode_sound_canonical (f : Nat) (bs rest : Bytes) (v : FfiValue) (h : decode f bs = some (v, rest)) :
+    ∃ w : FfiValue, bs = encode w ++ rest ∧ v = w.norm ∧ (w.KeysValid → bs = encode v ++ rest) := by
+  obtain ⟨w, -, e, rfl⟩ := decode_sound h
+  exact ⟨w, e, rfl, fun hk => by rw [norm_of_keysValid w hk]; exact e⟩
+
+/-- the consumed prefix determines the value: two inputs that start with the same consumed prefix decode to the same
+value (no two different values share an encoding, canonical or not) … -/
+theorem C20_decode_prefix_deterministic (pre r₁ r₂ : Bytes) (v₁ v₂ : FfiValue)
+    (h₁ : decodeBytes (pre ++ r₁) = some (v₁, r₁)) (h₂ : decodeBytes (pre ++ r₂) = some (v₂, r₂)) : v₁ = v₂ := by
+  obtain ⟨w, hw, e, rfl⟩ := decode_sound h₁
+  have := List.append_cancel_right e
+  subst this
+  rw [decodeBytes_encode w r₂ hw] at h₂
+  simp at h₂; exact h₂
+
+/-- … and the value determines how much is consumed: `(encode v).length` bytes, whatever follows -/
+theorem C20_decode_consumed (f : Nat) (bs rest : Bytes) (v : FfiValue) (h : decode f bs = some (v, rest)) :
+    bs.length = (encode v).length + rest.length := by
+  obtain ⟨w, -, rfl, rfl⟩ := decode_sound h
+  simp [encode_norm_length]
+
+/-- the model's fuel is unobservable on EVERY input (accepted or rejected) once it reaches the input length, and a
+success at any smaller fuel is already the final answer -/
+theorem C20_decode_fuel_irrelevant_all (f : Nat) (bs : Bytes) :
+    (bs.length ≤ f → decode f bs = decodeBytes bs) ∧ (∀ p, decode f bs = some p → decodeBytes bs = some p) :=
+  ⟨decode_fuel_irrelevant f bs, fun _ h => decodeBytes_of_decode h⟩
+
+/-- the derived `Deserialize` maps an index to a variant only if the derived `Serialize` writes that index for it
+(generated table, re-checked each run; converse of `C20_ffi_tags_roundtrip`) -/
+theorem C20_ffi_tags_sound (t : UInt32) (c : FfiCtor) (h : FfiCtor.ofTag t = some c) : c.tag = t :=
+  FfiCtor.tag_of_ofTag h
+
+/-! ## macro arguments -/
+
+theorem C20_macro_args_decode_sound (bs rest : Bytes) (as : List (FfiValue × Key))
+    (h : decodeArgs bs = some (as, rest)) :
+    ∃ ws, LenOk ws.length ∧ RepArgs ws ∧ bs = encodeArgs ws ++ rest ∧ as = normArgs ws := decodeArgs_sound h
+
+/-- decoded argument lists are well formed and their canonical re-encoding decodes to themselves -/
+theorem C20_macro_args_decode_reencode (bs rest : Bytes) (as : List (FfiValue × Key))
+    (h : decodeArgs bs = some (as, rest)) :
+    LenOk as.length ∧ RepArgs as ∧ normArgs as = as ∧ ∀ x, decodeArgs (encodeArgs as ++ x) = some (as, x) := by
+  obtain ⟨ws, hl, hws, -, rfl⟩ := decodeArgs_sound h
+  have hl' : LenOk (normArgs ws).length := by rw [normArgs_length]; exact hl
+  refine ⟨hl', repArgs_norm ws hws, normArgs_normArgs ws, fun x => ?_⟩
+  rw [decodeArgs_encode _ x hl' (repArgs_norm ws hws), normArgs_normArgs]
+
+/-! ## `Type` -/
+
+/-- SOUNDNESS of the hand-written `Deserialize for Type`: whatever it accepts is the hand-written serializer's output
+for a representable type `t0` (which the serializer therefore does not refuse) followed by the unread rest; the type
+returned is `t0.norm`. -/
+theorem C20_type_decode_sound (bs rest : Bytes) (t : Ty) (h : decodeTy bs = some (t, rest)) :
+    ∃ (t0 : Ty) (enc : Bytes), t0.Rep ∧ encodeTy t0 = some enc ∧ bs = enc ++ rest ∧ t = t0.norm := decodeTy_sound h
+
+theorem C20_type_decode_iff (bs rest : Bytes) (t : Ty) :
+    decodeTy bs = some (t, rest) ↔
+      ∃ (t0 : Ty) (enc : Bytes), t0.Rep ∧ encodeTy t0 = some enc ∧ bs = enc ++ rest ∧ t = t0.norm :=
+  decodeTy_iff bs rest t
+
+/-- a decoded type is well formed (representable, keys valid), the serializer accepts it, its canonical encoding has
+the length that was consumed and decodes to the same type with anything appended -/
+theorem C20_type_decode_encode (bs rest : Bytes) (t : Ty) (h : decodeTy bs = some (t, rest)) :
+    t.Rep ∧ t.KeysValid ∧ ∃ enc, encodeTy t = some enc ∧ bs.length = enc.length + rest.length ∧
+      ∀ xs, decodeTy (enc ++ xs) = some (t, xs) := by
+  obtain ⟨t0, enc0, hr, he, rfl, rfl⟩ := decodeTy_sound h
+  have hs := encodeTy_norm_isSome t0
+  rw [he] at hs
+  cases he' : encodeTy t0.norm with
+  | none => simp [he'] at hs
+  | some enc =>
+    refine ⟨Ty.rep_norm t0 hr, Ty.norm_norm t0, enc, rfl, ?_, fun xs => ?_⟩
+    · simp [encodeTy_norm_length t0 enc0 enc he he']
+    · rw [decodeTy_encodeTy t0.norm enc xs (Ty.rep_norm t0 hr) he', Ty.norm_norm]
+
+/-- the consumed prefix determines the type -/
+theorem C20_type_prefix_deterministic (pre r₁ r₂ : Bytes) (t₁ t₂ : Ty)
+    (h₁ : decodeTy (pre ++ r₁) = some (t₁, r₁)) (h₂ : decodeTy (pre ++ r₂) = some (t₂, r₂)) : t₁ = t₂ := by
+  obtain ⟨t0, enc, hr, he, e, rfl⟩ := decodeTy_sound h₁
+  have := List.append_cancel_right e
+  subst this
+  rw [decodeTy_encodeTy t0 _ r₂ hr he] at h₂
+  simp at h₂; exact h₂
+
+/-- truncation: every strict prefix of a `Type` encoding is rejected (`Err`) -/
+theorem C20_type_truncation (t : Ty) (bs : Bytes) (hr : t.Rep) (he : encodeTy t = some bs) (k : Nat)
+    (hk : k < bs.length) : decodeTy (bs.take k) = none := decodeTy_truncated t bs hr he k hk
+
+/-- extension: whatever follows an encoding is left untouched and does not change what is decoded -/
+theorem C20_type_extension (t : Ty) (bs xs : Bytes) (hr : t.Rep) (hk : t.KeysValid) (he : encodeTy t = some bs) :
+    decodeTy (bs ++ xs) = some (t, xs) := C20_type_roundtrip t bs xs hr hk he
+
+/-- extension for whatever the decoder accepts (valid or not) -/
+theorem C20_type_decode_extension_stable (bs rest xs : Bytes) (t : Ty) (h : decodeTy bs = some (t, rest)) :
+    decodeTy (bs ++ xs) = some (t, rest ++ xs) := decodeTy_ext xs h
+
+/-- no two serialisable types share an encoding (keys valid), and none is a strict prefix of another's -/
+theorem C20_type_encode_injective (t u : Ty) (a b xs : Bytes) (ht : t.Rep) (hu : u.Rep) (kt : t.KeysValid)
+    (ku : u.KeysValid) (ha : encodeTy t = some a) (hb : encodeTy u = some b) (h : a ++ xs = b) : t = u ∧ xs = [] := by
+  have h1 := C20_type_roundtrip t a xs ht kt ha
+  have h2 := C20_type_roundtrip u b [] hu ku hb
+  rw [List.append_nil, ← h, h1] at h2
+  simp at h2; exact ⟨h2.1, h2.2⟩
+
+/-- the hand-written `Deserialize for Type` maps an index to a variant only if `Serialize for Type` writes that
+index for it (generated tables; converse of `C20_type_tags_consistent`) -/
+theorem C20_type_tags_sound (t : UInt32) (c : TyCtor) (h : TyCtor.ofTag t = some c) : c.serTag = some t :=
+  TyCtor.serTag_of_ofTag h
+
+theorem C20_ptype_tags_sound (t : UInt32) (c : PTypeCtor) (h : PTypeCtor.ofTag t = some c) : c.tag = t :=
+  PTypeCtor.tag_of_ofTag h
+
+/-! ## direct `Value` -/
+
+/-- SOUNDNESS of the hand-written `Deserialize for Value` (any fuel, any bytes) -/
+theorem C20_dvalue_decode_sound (f : Nat) (bs rest : Bytes) (v : RawValue) (h : decodeVal f bs = some (v, rest)) :
+    ∃ (w : RawValue) (enc : Bytes), w.RepV ∧ encodeVal w = some enc ∧ bs = enc ++ rest ∧ v = w.normKeys := by
+  obtain ⟨w, hok, hr, e, hv⟩ := decodeVal_sound h
+  exact ⟨w, encodeValRaw w, hr, by simp [encodeVal, hok], e, hv⟩
+
+theorem C20_dvalue_decode_iff (bs rest : Bytes) (v : RawValue) :
+    decodeValBytes bs = some (v, rest) ↔
+      ∃ (w : RawValue) (enc : Bytes), w.RepV ∧ encodeVal w = some enc ∧ bs = enc ++ rest ∧ v = w.normKeys :=
+  decodeValBytes_iff bs rest v
+
+/-- a decoded value is well formed (representable, keys normal, no refused variant inside), its canonical encoding has
+the length that was consumed and decodes to the same value with anything appended -/
+theorem C20_dvalue_decode_encode (f : Nat) (bs rest : Bytes) (v : RawValue) (h : decodeVal f bs = some (v, rest)) :
+    v.RepV ∧ v.normKeys = v ∧ ∃ enc, encodeVal v = some enc ∧ bs.length = enc.length + rest.length ∧
+      ∀ xs, decodeValBytes (enc ++ xs) = some (v, xs) := by
+  obtain ⟨w, hok, hr, rfl, rfl⟩ := decodeVal_sound h
+  have hok' : w.normKeys.directOk = true := by rw [Value.directOk_normKeys]; exact hok
+  have he : encodeVal w.normKeys = some (encodeValRaw w.normKeys) := by simp [encodeVal, hok']
+  refine ⟨Value.repV_normKeys w hr, Value.normKeys_normKeys w, _, he, ?_, fun xs => ?_⟩
+  · simp [encodeValRaw_normKeys_length]
+  · rw [decodeValBytes_encode _ _ xs (Value.repV_normKeys w hr) he, Value.normKeys_normKeys]
+
+/-- the consumed prefix determines the value -/
+theorem C20_dvalue_prefix_deterministic (pre r₁ r₂ : Bytes) (v₁ v₂ : RawValue)
+    (h₁ : decodeValBytes (pre ++ r₁) = some (v₁, r₁)) (h₂ : decodeValBytes (pre ++ r₂) = some (v₂, r₂)) :
+    v₁ = v₂ := by
+  obtain ⟨w, hok, hr, e, rfl⟩ := decodeVal_sound h₁
+  have := List.append_cancel_right e
+  subst this
+  rw [decodeValBytes_encode w _ r₂ hr (by simp [encodeVal, hok])] at h₂
+  simp at h₂; exact h₂
+
+/-- truncation: every strict prefix of a direct `Value` encoding is rejected (`Err`), at any depth -/
+theorem C20_dvalue_truncation (v : RawValue) (bs : Bytes) (hr : v.RepV) (he : encodeVal v = some bs) (k : Nat)
+    (hk : k < bs.length) : decodeValBytes (bs.take k) = none := decodeValBytes_truncated v bs hr he k hk
+
+/-- extension: whatever follows an encoding is left untouched and does not change what is decoded -/
+theorem C20_dvalue_extension (v : RawValue) (bs xs : Bytes) (hr : v.RepV) (hk : v.normKeys = v)
+    (he : encodeVal v = some bs) : decodeValBytes (bs ++ xs) = some (v, xs) := by
+  rw [decodeValBytes_encode v bs xs hr he, hk]
+
+/-- extension for whatever the decoder accepts (valid or not) -/
+theorem C20_dvalue_decode_extension_stable (bs rest xs : Bytes) (v : RawValue)
+    (h : decodeValBytes bs = some (v, rest)) : decodeValBytes (bs ++ xs) = some (v, rest ++ xs) :=
+  decodeValBytes_ext xs h
+
+/-- no two values share a direct encoding (keys normal), and none is a strict prefix of another's -/
+theorem C20_dvalue_encode_injective (v u : RawValue) (a b xs : Bytes) (hv : v.RepV) (hu : u.RepV)
+    (kv : v.normKeys = v) (ku : u.normKeys = u) (ha : encodeVal v = some a) (hb : encodeVal u = some b)
+    (h : a ++ xs = b) : v = u ∧ xs = [] := by
+  have h1 := C20_dvalue_extension v a xs hv kv ha
+  have h2 := C20_dvalue_extension u b [] hu ku hb
+  rw [List.append_nil, ← h, h1] at h2
+  simp at h2; exact ⟨h2.1, h2.2⟩
+
+/-- the model's fuel is unobservable on EVERY input once it reaches the input length, and a success at any smaller
+fuel is already the final answer -/
+theorem C20_dvalue_fuel_irrelevant (f : Nat) (bs : Bytes) :
+    (bs.length ≤ f → decodeVal f bs = decodeValBytes bs) ∧
+    (∀ p, decodeVal f bs = some p → decodeValBytes bs = some p) :=
+  ⟨decodeVal_fuel_irrelevant f bs, fun _ h => decodeValBytes_of_decodeVal h⟩
+
+/-- `Deserialize for Value` maps an index to a variant only if `Serialize for Value` writes that index for it -/
+theorem C20_value_tags_sound (t : UInt32) (c : ValCtor) (h : ValCtor.ofTag t = some c) : c.serTag = some t :=
+  ValCtor.serTag_of_ofTag h
+
+/-! ## non-vacuity of the soundness theorems: non-canonical inputs that ARE accepted (even key versions), and the
+canonical forms they come back as -/
+
+-- `Code` key (idx 7, version 4) on the wire: accepted, comes back with version 5; re-encoding differs in one byte
+example : decodeBytes (encode (.code ⟨7, 4⟩) ++ [9]) = some (.code ⟨7, 5⟩, [9]) :=
+  C20_ffi_roundtrip_norm (.code ⟨7, 4⟩) [9] (by simp [FfiValue.Rep])
+example : encode (.code ⟨7, 4⟩) ≠ encode (.code ⟨7, 5⟩) := by decide +kernel
+example : ∃ f bs rest v, decode f bs = some (v, rest) ∧ bs ≠ encode v ++ rest :=
+  ⟨_, encode (.code ⟨7, 4⟩) ++ [9], [9], .code ⟨7, 5⟩,
+    C20_ffi_roundtrip_norm (.code ⟨7, 4⟩) [9] (by simp [FfiValue.Rep]), by decide +kernel⟩
+example : decodeArgs (encodeArgs [(.unit, ⟨0xFFFFFFFF, 8⟩)]) = some ([(.unit, ⟨0xFFFFFFFF, 1⟩)], []) := by
+  have := C20_macro_args_roundtrip [(.unit, ⟨0xFFFFFFFF, 8⟩)] [] (by simp [LenOk]) (by simp [RepArgs, FfiValue.Rep])
+  rw [List.append_nil] at this
+  rw [this]; rfl
+example : ∃ bs, encodeTy (.function ⟨1, 2⟩ ⟨3, 3⟩) = some bs ∧ decodeTy (bs ++ [0]) = some (.function ⟨1, 3⟩ ⟨3, 3⟩, [0]) :=
+  ⟨_, rfl, by decide +kernel⟩
+example : ∃ bs, encodeVal (.array [.fixpoint 2 ⟨0, 0⟩]) = some bs ∧
+    decodeValBytes bs = some (.array [.fixpoint 2 ⟨0, 1⟩], []) := by
+  refine ⟨_, rfl, ?_⟩
+  have := C20_value_serde_roundtrip (.array [.fixpoint 2 ⟨0, 0⟩]) _ [] (by simp [Value.RepV, RepVList, LenOk]) rfl
+  rw [List.append_nil] at this
+  rw [this]; rfl
+-- hypotheses of the truncation / extension theorems are satisfiable
+example : ∃ bs, encodeTy (.record [⟨1, ⟨0, 1⟩, true⟩]) = some bs ∧ 3 < bs.length ∧ (Ty.record [⟨1, ⟨0, 1⟩, true⟩]).Rep :=
+  ⟨_, rfl, by decide +kernel, by simp [Ty.Rep, LenOk]⟩
+example : ∃ bs, encodeVal (.tuple [.code ⟨0, 1⟩, .unit]) = some bs ∧ 3 < bs.length ∧
+    (Value.tuple [.code ⟨0, 1⟩, .unit] : RawValue).RepV ∧
+    (Value.tuple [.code ⟨0, 1⟩, .unit] : RawValue).normKeys = .tuple [.code ⟨0, 1⟩, .unit] :=
+  ⟨_, rfl, by decide +kernel, by simp [Value.RepV, RepVList, LenOk], rfl⟩
 
 end Mimium.Ffi
